@@ -315,6 +315,20 @@ Definition blrp_config (i : blrp_in) : Z * Z :=
            end in
   (q, b).
 
+(** Durations of the batch log record processor (export timeout; the export interval is resolved
+    the same way): clearLessThanOne on the option (ns), getenv (ms -> ns, int64 wrap-around),
+    clearLessThanOne, fallback.  The timeout exporter then always sets a deadline. *)
+Definition blrp_dur_getenv (s : option Z) (v : bytes) : option Z :=
+  match s with
+  | Some _ => s
+  | None => if is_nil v then None else option_map ms_to_ns (atoi v)
+  end.
+Definition blrp_export_timeout (i : blrp_in) : Z :=
+  or_dflt (clear_lt1 (blrp_dur_getenv (clear_lt1 (r_opt_export i)) (r_env_export i))) 30000000000%Z.
+
+(** exportSpans / newTimeoutExporter: a deadline is set iff the timeout is positive. *)
+Definition export_deadline (t : Z) : option Z := if (0 <? t)%Z then Some t else None.
+
 (** ** span limits (sdk/trace/span_limits.go, provider.go) *)
 Definition limits_default : limits :=
   {| lim_attr_len := -1; lim_attr_cnt := 128; lim_event_cnt := 128; lim_link_cnt := 128;
